@@ -84,10 +84,19 @@ def rule_address_modulo(chk, facts, P):
                         not mentions(r[4], lambda x: isinstance(x, (list, tuple)) and len(x) > 2 and x[0] == 'b' and x[1] == '-' and
                                      pc_call(x[3])):
                     narrowed[strip(m[2])] = (ln, r[2], r[3])
+        # a local computed from a program-counter local holds a program-counter value, too
+        grew = True
+        while grew:
+            grew = False
+            for b, i, ln, m in f.nodes():
+                if is_assign(m) and m[1] == '=' and strip(m[2])[0] == 'l' and strip(m[2]) not in pcvars and \
+                        mentions(m[3], lambda x: isinstance(x, (list, tuple)) and len(x) == 2 and x[0] == 'l' and tuple(x) in pcvars):
+                    pcvars.add(strip(m[2]))
+                    grew = True
         for b, i, ln, m in f.nodes():
             if m[0] == 'b' and m[1] in ('%', '%='):
                 d = strip(m[2])
-                if not (pc_call(m[2]) or d in pcvars):
+                if not (pc_call(m[2]) or d in pcvars or mentions(m[2], lambda x: isinstance(x, (list, tuple)) and len(x) == 2 and x[0] == 'l' and tuple(x) in pcvars)):
                     continue
                 n += 1
                 ok = d not in narrowed
@@ -182,6 +191,8 @@ def run(chk, facts, info):
     rule_label_fixup(chk, facts, P)
     rule_address_operands(chk, facts, P)
     rule_address_modulo(chk, facts, P)
+    from . import pc_snapshot
+    pc_snapshot.run(chk, facts, 'C10-R13', min_instances=100)
     chk.rule('C10-R8', 'logical (PHASE-adjusted, EProgCounter()) and physical (ProgCounter()) addresses are never compared, '
              'subtracted or assigned across: a global assigned only from one kind is compared only with that kind',
              min_instances=2)
